@@ -7,7 +7,7 @@ from symx.run import Case, new_result
 from checks import common, c13
 
 ID = "C14"
-CONDS = ["one_override", "one_addition", "two_overrides_pair", "override_then_add", "remove_last_key", "cli_order", "cli_order_remove", "cli_table_form", "cli_two_sections", "list_items"]
+CONDS = ["one_override", "one_addition", "two_overrides_pair", "override_then_add", "remove_last_key", "cli_order", "cli_order_remove", "cli_table_form", "cli_two_sections", "list_items", "cli_item_value"]
 META = dict(
   functions=["config._config_parser.ConfigParser._init_config_parser", "config._config_parser._RawConfigParser.optionxform/options/has_option/get", "config._config_parser._ConfigParserDict",
              "tools.potable._create_override_tuple/_override_dict_key/_make_config_parser", "tools.potable._query_actions._list_items/_list_section/_item_value"],
@@ -42,6 +42,9 @@ EDITS = [
   (["--remove-item", "Potential-Form:f(r, A)", "--override-item", "Pair:B-B=as.zero"], lambda t: t.replace("B-B : f 2.0", "B-B : as.zero").replace("[Potential-Form]\nf(r, A) : A/r\n", "")),
   # (0.8 gives the eight rows DL_POLY accepts with nr : 8 removed; the other targets take any count)
   (["--add-item", "Pair:C-C=as.constant 1.0", "--add-item", "Tabulation:dr=0.8", "--remove-item", "Tabulation:nr"], lambda t: re.sub(r"nr : \d+\n", "dr : 0.8\n", t.replace("B-B : f 2.0", "B-B : f 2.0\nC-C : as.constant 1.0"), count=1)),
+  # a value holding a place-holder followed by a range marker (':' and '=' inside VALUE)
+  (["--add-item", "Pair:C-C=as.constant ${Tabulation:cutoff} >=2.0 as.zero"], lambda t: t.replace("B-B : f 2.0", "B-B : f 2.0\nC-C : as.constant ${Tabulation:cutoff} >=2.0 as.zero")),
+  (["--override-item", "Pair:B-B=as.constant ${Tabulation:cutoff} >=2.0 as.zero"], lambda t: t.replace("B-B : f 2.0", "B-B : as.constant ${Tabulation:cutoff} >=2.0 as.zero")),
   (["--override-item", "Pair:Z-Z=as.zero"], None),      # must be refused
   (["--add-item", "Pair:A - B=as.zero"], None),          # must be refused
   (["--remove-item", "Pair:Z-Z"], None),                 # must be refused
